@@ -1414,7 +1414,7 @@ func FunExpr(query *Query, current Map, expr *sqlparser.FuncExpr, opts ...ExprOp
 			query.wg.Add(1)
 			go func() {
 				defer query.wg.Done()
-				value, err := function(query, current, nil, slice)
+				value, err := callFunction(function, query, current, slice)
 				if err != nil {
 					if query.options.errors != nil {
 						query.options.errors(err)
@@ -1435,7 +1435,7 @@ func FunExpr(query *Query, current Map, expr *sqlparser.FuncExpr, opts ...ExprOp
 				return nil, e
 			}
 			go func() {
-				_, err := function(query, current, nil, slice)
+				_, err := callFunction(function, query, current, slice)
 				if err != nil {
 					if query.options.errors != nil {
 						query.options.errors(err)
@@ -1455,13 +1455,13 @@ func FunExpr(query *Query, current Map, expr *sqlparser.FuncExpr, opts ...ExprOp
 			}
 			query.wg.Add(1)
 			go func() {
-				_, err := function(query, current, nil, slice)
+				defer query.wg.Done()
+				_, err := callFunction(function, query, current, slice)
 				if err != nil {
 					if query.options.errors != nil {
 						query.options.errors(err)
 					}
 				}
-				query.wg.Done()
 			}()
 			return Ommit(true), nil
 		}
@@ -1897,6 +1897,18 @@ func (query *Query) Exec() (result []any, err error) {
 		return slice, nil
 	}
 	return []any{rs}, nil
+}
+
+// callFunction invokes a user function on a goroutine of its own (ASYNC, SPIN,
+// SPINASYNC): a panic in it is reported like an error it returned, it must
+// not kill the host process
+func callFunction(function Function, query *Query, current Map, args []any) (value any, err error) {
+	defer func() {
+		if r := recover(); r != nil {
+			value, err = nil, recovered(r)
+		}
+	}()
+	return function(query, current, nil, args)
 }
 
 // recovered turns a panic raised while building or evaluating a query into
